@@ -151,6 +151,13 @@ pub fn bt_stub() -> std::backtrace::Backtrace {
     std::backtrace::Backtrace::disabled()
 }
 
+/// Stub for `cosmwasm_std::from_json`, used ONLY by the two reply-data cells whose input is a byte that is not a
+/// response envelope: the real path never reaches the JSON parser there (the envelope decoder fails first), but CBMC
+/// symbolically executes the parser of the unreachable branch and does not finish.  Always an error.
+pub fn from_json_unreachable_stub<T: serde::de::DeserializeOwned>(_value: impl AsRef<[u8]>) -> StdResult<T> {
+    Err(StdError::generic_err("from_json stubbed"))
+}
+
 /// symbolic ASCII string of at most N bytes, without `from_utf8`
 #[cfg(kani)]
 pub fn any_ascii<const N: usize>(buf: &mut [u8; N]) -> &str {
